@@ -325,10 +325,15 @@ def get(invalid_methods=('POST', 'PUT', 'DELETE'), debug=False, **kwargs):
             atoms = v.split('=', 1)
             directive = atoms.pop(0)
             if directive == 'max-age':
-                if len(atoms) != 1 or not atoms[0].isdigit():
+                # str.isdigit() also holds for characters int() refuses
+                # (superscript digits), and int() has a digit limit.
+                try:
+                    if len(atoms) != 1 or not atoms[0].isdigit():
+                        raise ValueError(atoms)
+                    max_age = min(max_age, int(atoms[0]))
+                except ValueError:
                     raise cherrypy.HTTPError(
                         400, 'Invalid Cache-Control header')
-                max_age = min(max_age, int(atoms[0]))
                 break
             elif directive == 'no-cache':
                 if debug:
